@@ -206,6 +206,14 @@ def check_ctor_sites(ctx, specs, idl):
                 if cls in ("i8", "i16") and ek == "maybe-int":
                     problems.append(f"{name}: {cls} field cannot be expressed by the i32/i64 markers (written as i32 or i64)")
             ids32 = sorted(idl.fields_by_name(struct)[n].id for n in given32)
+            # `**mapping` arguments: the fields given are not visible statically. If the struct has any 32-bit integer field that
+            # such a mapping may carry and the site has no marker of its own, nothing can declare its wire width (the keys
+            # 'i32' / 'i32list' are not attributes, a mapping built from attributes cannot carry them): pose it as a problem.
+            if any(k.arg is None for k in node.keywords):
+                could32 = sorted(n for n, f_ in idl.fields_by_name(struct).items() if _field_class(idl, struct, n) == "i32" and n not in kws)
+                if could32 and not i32flag and i32list is None:
+                    problems.append(f"fields passed as **mapping with no integer-width marker at the site: 32-bit IDL fields {could32} "
+                                    "would be written as i64")
             if i32flag:
                 if given64:
                     problems.append(f"i32=1 but 64-bit IDL fields are given: {given64}")
